@@ -21,6 +21,12 @@ func init() {
 		Assumptions: []string{"function bodies are built through the Function.build field (a dynamic call), so the static call graph of exported API functions contains no builder code"},
 		Run:         runC14,
 		Mutants: []Mutant{
+			{Name: "lt-step4-in-block-index-order", File: "go/ir/dom.go", Rule: "R14.5", KeyPart: "deferred-idoms-resolved-in-increasing-dfs-number",
+				Old: "\tfor _, w := range preorder[1:] {\n", New: "\tfor _, w := range fn.Blocks[1:] {\n"},
+			{Name: "lt-step4-in-reverse-preorder", File: "go/ir/dom.go", Rule: "R14.5", KeyPart: "deferred-idoms-resolved-in-increasing-dfs-number",
+				Old: "\tfor _, w := range preorder[1:] {\n", New: "\tfor k := n - 1; k >= 1; k-- {\n\t\tw := preorder[k]\n"},
+			{Name: "lt-main-loop-ascending", File: "go/ir/dom.go", Rule: "R14.5", KeyPart: "semidominators-in-decreasing-dfs-number",
+				Old: "\tfor i := int32(n) - 1; i > 0; i-- {\n", New: "\tfor i := int32(1); i < int32(n); i++ {\n"},
 			{Name: "lt-skips-latch-predecessors", File: "go/ir/dom.go", Rule: "R14.4", KeyPart: "semidominator-considers-every-predecessor",
 				Old: "\t\tfor _, v := range w.Preds {\n\t\t\tu := lt.eval(v)\n", New: "\t\tfor _, v := range w.Preds {\n\t\t\tif v == w || lt.parent[v.Index] == w {\n\t\t\t\tcontinue\n\t\t\t}\n\t\t\tu := lt.eval(v)\n"},
 			{Name: "optimize-after-domtree", File: "go/ir/func.go", Rule: "R14.1", KeyPart: "finishBody",
@@ -441,5 +447,124 @@ func runC14(c *Ctx) {
 		c.Check(FuncKey(dfs)+"::numbers-every-unvisited-successor", succ.Pos(), len(rec) > 0 && len(visited) > 0 && t == nil, "the preorder DFS recurses into every successor that has no semidominator yet; path that skips one: %s", PathString(dfs, path))
 		// nothing in buildDomTree's vertex loops is skipped by a continue that depends on the vertex (step 3/4 run for every vertex)
 		c.Check(FuncKey(bdt)+"::uses-eval-link-dfs", bdt.Pos(), len(CallsTo(bdt, false, irPkg+".ltState.eval")) >= 2 && len(CallsTo(bdt, false, irPkg+".ltState.link")) == 1 && len(CallsTo(bdt, false, irPkg+".ltState.dfs")) >= 1, "buildDomTree runs the DFS numbering, EVAL in steps 2 and 3, and LINK once per vertex")
+	})
+	// R14.5: the vertex orders of Lengauer–Tarjan. Steps 2/3 must visit the
+	// vertices in DECREASING DFS number (LINK(parent(w), w) after w's
+	// semidominator is known, so that EVAL sees exactly the vertices numbered
+	// higher), and step 4 must resolve the deferred immediate dominators
+	// (idom(w) = idom(idom(w))) in INCREASING DFS number, because the vertex it
+	// defers to must already be final. Any other order (block index order, say)
+	// is right on reducible graphs and wrong on goto-built ones.
+	c.Rule("R14.5", func() {
+		c.Floor("R14.5", 2)
+		bdt := c.Func("go/ir", "buildDomTree")
+		// the DFS numbering list: the slice handed to (*ltState).dfs
+		var pre []ssa.Value
+		for _, ci := range CallsTo(bdt, false, irPkg+".ltState.dfs") {
+			args := ci.Common().Args
+			pre = append(pre, args[len(args)-1])
+		}
+		if len(pre) == 0 {
+			c.Undecided("buildDomTree no longer calls (*ltState).dfs with a numbering list")
+		}
+		fromPre := func(v ssa.Value) bool {
+			return AddrFrom(v, func(x ssa.Value) bool {
+				for _, p := range pre {
+					if x == p {
+						return true
+					}
+				}
+				return false
+			})
+		}
+		// direction in which an index value moves from one iteration to the next
+		direction := func(idx ssa.Value) string {
+			for depth := 0; depth < 4; depth++ {
+				switch x := idx.(type) {
+				case *ssa.BinOp:
+					if _, ok := ConstInt(x.Y); ok && (x.Op == token.ADD || x.Op == token.SUB) {
+						idx = x.X
+						continue
+					}
+				case *ssa.Convert:
+					idx = x.X
+					continue
+				case *ssa.Phi:
+					for _, e := range x.Edges {
+						if b, ok := e.(*ssa.BinOp); ok && b.X == ssa.Value(x) {
+							if k, ok := ConstInt(b.Y); ok && k == 1 {
+								switch b.Op {
+								case token.ADD:
+									return "ascending"
+								case token.SUB:
+									return "descending"
+								}
+							}
+						}
+					}
+					return "unknown"
+				}
+				break
+			}
+			return "unknown"
+		}
+		// the vertex an instruction works on, if it is read from the numbering list
+		vertexOrder := func(w ssa.Value) (string, bool) {
+			for x := range BackSlice(w, SliceOpts{}) {
+				ld, ok := x.(*ssa.UnOp)
+				if !ok || ld.Op != token.MUL {
+					continue
+				}
+				ia, ok := ld.X.(*ssa.IndexAddr)
+				if !ok || !fromPre(ia.X) {
+					continue
+				}
+				return direction(ia.Index), true
+			}
+			return "", false
+		}
+		// step 4: store to w.dom.idom of a value read through another idom
+		n4 := 0
+		Instrs(bdt, false, func(in ssa.Instruction) {
+			st, ok := in.(*ssa.Store)
+			if !ok || !IsFieldOf("ir.domInfo", "idom")(st.Addr) {
+				return
+			}
+			ld, ok := st.Val.(*ssa.UnOp)
+			if !ok || ld.Op != token.MUL || !IsFieldOf("ir.domInfo", "idom")(ld.X) {
+				return
+			}
+			// idom of idom: the address of the loaded field is itself reached through an idom load
+			through := AddrFrom(ld.X, func(x ssa.Value) bool {
+				u, ok := x.(*ssa.UnOp)
+				return ok && u != ld && u.Op == token.MUL && IsFieldOf("ir.domInfo", "idom")(u.X)
+			})
+			if !through {
+				return
+			}
+			n4++
+			var w ssa.Value
+			if fa, ok := st.Addr.(*ssa.FieldAddr); ok {
+				if fb, ok := fa.X.(*ssa.FieldAddr); ok {
+					w = fb.X
+				}
+			}
+			dir, found := "", false
+			if w != nil {
+				dir, found = vertexOrder(w)
+			}
+			c.Check(FuncKey(bdt)+"::deferred-idoms-resolved-in-increasing-dfs-number", st.Pos(), found && dir == "ascending",
+				"idom(w) = idom(idom(w)) is only right if the vertex it defers to is already final, i.e. if the vertices are processed in increasing DFS number — w must be read from the DFS numbering list with an ascending index (found: from the numbering list=%v, index %s)", found, dir)
+		})
+		if n4 == 0 {
+			c.Undecided("buildDomTree no longer resolves deferred immediate dominators (step 4)")
+		}
+		// steps 2/3: LINK(parent(w), w) for w read from the numbering list in decreasing order
+		for _, ci := range CallsTo(bdt, false, irPkg+".ltState.link") {
+			args := ci.Common().Args
+			dir, found := vertexOrder(args[len(args)-1])
+			c.Check(FuncKey(bdt)+"::semidominators-in-decreasing-dfs-number", ci.Pos(), found && dir == "descending",
+				"steps 2 and 3 process the vertices in decreasing DFS number and LINK each one afterwards; w must be read from the DFS numbering list with a descending index (found: from the numbering list=%v, index %s)", found, dir)
+		}
 	})
 }
